@@ -38,13 +38,15 @@ def _build(c, dst):
         xx = xr.DataArray(arr, dims=("band", *gb.dimensions), coords=xr_coords(gb), attrs=({"nodata": kw["nodata"]} if kw else {}))
     else:
         xx = wrap_xr(arr, gb, **kw)
-    cy, cx = (c["chunks"][0] or c["blocks"][0]), (c["chunks"][1] or c["blocks"][0])
+    cy, cx = (c["chunks"][0] or (c["tb"][0][0] if "tb" in c else c["blocks"][0])), (c["chunks"][1] or (c["tb"][0][1] if "tb" in c else c["blocks"][0]))
     ch = {xx.odc.spatial_dims[0]: cy, xx.odc.spatial_dims[1]: cx}
     if c.get("schunk") and c["axis"] != "YX":
         ch[[d for d in xx.dims if d not in xx.odc.spatial_dims][0]] = c["schunk"]
     xx = xx.chunk(ch)
     bs = list(c["blocks"])
-    if len(bs) == 1 and (c["h"] + c["w"]) % 2 == 0:
+    if "tb" in c:
+        bs = [tuple(t) for t in c["tb"]]
+    elif len(bs) == 1 and (c["h"] + c["w"]) % 2 == 0:
         bs = bs[0]            # a single block size may be given as a plain number
     wkw = {"blocksize": bs, "stats": bool(c.get("stats", False)), "compression": c["comp"]}
     if "pred" in c:
